@@ -14,6 +14,13 @@ of the optional management fields into the LDM built by LDMFactory WITH its reac
 virtual clock (known finding C17-KF1 = C12-KF1 seen through reception), and concurrent origination of several events
 under harness/dsched.py (pre-emption at every access inside `allocate_sequence_number`; `AllocRun`), tied to
 `Generated/Denm.lean` (harness/gen_denm.py) and theorem `alloc_section_tied`.
+
+Round 4 additions: OVERLAPPING events under thread interleavings of the REPETITION BODY - `body` scenarios of
+`AllocRun` pre-empt before every attribute access / call inside trigger_denm_messages / transmit_denm /
+send_collision_risk_warning_denm; every DENM is attributed to the event of the thread that hands it over and judged
+against THAT event (count, action id, event position, circle centre); outcomes compared with the Lean model of the
+repetition body (FlexModel/Fac/DenmRep.lean, op `reps`); regenerated facts `bodySharedStores` / `bodySelfAttrs` /
+`transmitArgs` (the message object of a repetition is local to it) discharged by `repetition_message_tied`.
 """
 from __future__ import annotations
 
@@ -57,6 +64,12 @@ TRUSTED = [
     "allocate_sequence_number, scheduler-aware Lock/Thread stand-ins) and harness/gen_denm.py (ast pass producing "
     "Generated/Denm.lean); the step from CPython bytecode to the micro-blocks `rd`/`wrA`/`wrL` of "
     "FlexModel/Fac/DenmConc.lean (one block per access to self.sequence_number) is by inspection",
+    "harness/gen_denm.py analyse_body (ast pass: stores through self / parameters / globals, instance attributes read, "
+    "argument of self.transmit_denm in the methods reachable from the three entry points) and the step from the "
+    "statements of the repetition body to the six accesses new / fill id / fill position / encode / latitude / "
+    "longitude+hand-over of FlexModel/Fac/DenmRep.lean (by inspection; what the fill methods and the coder do to "
+    "objects OTHER than the message of the repetition is not analysed - they receive only locals and read-only "
+    "collaborators as long as the regenerated facts hold)",
     "the LDM's collection (`collect_trash`) is abstract in the C17 model (deletion test `del`, modelled in detail by "
     "C12); the harness classifies the new record with `kf1_region` / `in_area_of_maintenance`",
 ]
@@ -980,7 +993,13 @@ class _SThread:
         s = dsched._active
         if s is None or s.me() is None:
             raise Infra("Thread started outside a scheduled run")
-        s.spawn(lambda: self.target(*self.args, **self.kwargs), name=f"rep{len(s.threads)}[{s.me().name}]")
+        cur = s.__dict__.setdefault("c17_event_of", {})
+        ev = cur.get(s.me().tid)          # the event the requesting thread is originating right now
+
+        def body():
+            cur[s.me().tid] = ev          # every DENM this thread hands over belongs to THAT event
+            self.target(*self.args, **self.kwargs)
+        s.spawn(body, name=f"rep{len(s.threads)}[{s.me().name}]")
         s.yield_point("start")
 
     def join(self, timeout=None):
@@ -994,24 +1013,46 @@ def _alloc_lat(idx):
     return 1000000 * (idx + 1)
 
 
+def _alloc_lon(idx):
+    return -(2000000 * (idx + 1) + 5)     # signed, different for every event
+
+
+def body_codes():
+    """code objects of the repetition body (fill -> encode -> GBC request): pre-emption before every attribute access /
+    call inside them when a scenario says `body`"""
+    cls = tm_mod.DENMTransmissionManagement
+    return [getattr(cls, n).__code__ for n in ("trigger_denm_messages", "transmit_denm", "send_collision_risk_warning_denm")
+            if hasattr(getattr(cls, n, None), "__code__")]
+
+
 class AllocRun:
     """several application threads originate events of ONE station at the same time, on the real
     DENMTransmissionManagement under harness/dsched.py: pre-emption before every attribute access / call inside
-    `allocate_sequence_number` (opcode level), at lock acquire / release, at thread start and at every `time.sleep`.
+    `allocate_sequence_number` (opcode level), at lock acquire / release, at thread start and at every `time.sleep`;
+    scenarios marked `body` (round 4) additionally pre-empt before every attribute access / call inside the REPETITION
+    BODY (`trigger_denm_messages`, `transmit_denm`, `send_collision_risk_warning_denm`: build/fill -> encode -> GBC
+    request), so that the repetitions of two overlapping events interleave at every point.
     ops: ["rep", n] trigger_denm_messages on the calling thread (n repetitions), ["req", n] request_denm_sending
-    (starts its own repetition thread), ["crw"] send_collision_risk_warning_denm."""
+    (starts its own repetition thread), ["crw"] send_collision_risk_warning_denm.
+    Every DENM handed to the transport layer is attributed to the event of the THREAD that hands it over (the
+    application thread's current op, inherited by the repetition thread it starts) - never by its content - and is
+    judged against THAT event: its action id, its event position, its circle centre."""
 
     def __init__(self, sc, policy, max_steps=20000):
         self.sc = sc
         log = self.log = []
+        event_of = {}
 
         class Cap:
             def btp_data_request(self_, request):      # noqa: N805
                 d = _COD.decode(request.data)
                 m = d["denm"]["management"]
-                log.append((m["eventPosition"]["latitude"], d["header"]["stationId"],
+                sch = dsched._active
+                me = sch.me() if sch is not None else None
+                log.append((event_of.get(me.tid) if me is not None else None,
+                            (m["eventPosition"]["latitude"], m["eventPosition"]["longitude"]), d["header"]["stationId"],
                             (m["actionId"]["originatingStationId"], m["actionId"]["sequenceNumber"]),
-                            request.gn_area.latitude))
+                            (request.gn_area.latitude, request.gn_area.longitude)))
 
             def register_indication_callback_btp(self_, port, callback):   # noqa: N805
                 pass
@@ -1032,30 +1073,33 @@ class AllocRun:
                     tmm.sequence_number = sc.get("seq0", 0)
                     if sc.get("nolock"):        # self-test hook of the HARNESS only: emulate a dropped `with`
                         tmm._sequence_number_lock = dsched.NoLock()
-                    s = dsched.DSched(policy, line_files=(), opcode_codes=[type(tmm).allocate_sequence_number.__code__],
-                                      max_steps=max_steps)
+                    codes = [type(tmm).allocate_sequence_number.__code__] + (body_codes() if sc.get("body") else [])
+                    s = dsched.DSched(policy, line_files=(), opcode_codes=codes, max_steps=max_steps)
+                    s.c17_event_of = event_of
                     idx = 0
                     for ti, ops in enumerate(sc["threads"]):
                         calls = []
                         for op in ops:
-                            lat = _alloc_lat(idx)
-                            idx += 1
+                            lat, lon = _alloc_lat(idx), _alloc_lon(idx)
                             if op[0] == "crw":
                                 req = DENRequest.with_collision_risk_warning(
                                     TimestampIts(clock.ms - ITS_SUB),
-                                    ReferencePosition(lat, 5, PositionConfidenceEllipse(4095, 4095, 3601), Altitude(800001, "unavailable")))
-                                calls.append((tmm.send_collision_risk_warning_denm, req))
+                                    ReferencePosition(lat, lon, PositionConfidenceEllipse(4095, 4095, 3601), Altitude(800001, "unavailable")))
+                                calls.append((idx, tmm.send_collision_risk_warning_denm, req))
                             else:
                                 req = DENRequest(denm_interval=100, time_period=100 * op[1], detection_time=clock.ms - ITS_SUB,
-                                                 event_position=event_position(lat, 5), relevance_distance="lessThan200m",
+                                                 event_position=event_position(lat, lon), relevance_distance="lessThan200m",
                                                  relevance_traffic_direction="upstreamTraffic",
                                                  rhs_cause_code="emergencyVehicleApproaching95", rhs_subcause_code=1,
                                                  rhs_event_speed=30, rhs_vehicle_type=0)
-                                calls.append((tmm.trigger_denm_messages if op[0] == "rep" else tmm.request_denm_sending, req))
+                                calls.append((idx, tmm.trigger_denm_messages if op[0] == "rep" else tmm.request_denm_sending, req))
+                            idx += 1
 
                         def body(calls=calls):
-                            for fn, req in calls:
+                            for j, fn, req in calls:
+                                event_of[s.me().tid] = j
                                 fn(req)
+                            event_of[s.me().tid] = None
                         s.spawn(body, name=f"T{ti}")
                     self.n_events = idx
                     with rs.quiet():
@@ -1073,9 +1117,14 @@ class AllocRun:
         return [1 if op[0] == "crw" else op[1] for ops in self.sc["threads"] for op in ops]
 
     def per_event(self):
+        """DENMs handed over by the thread(s) of each event: (station, action id, DENM event position, circle centre)"""
         out = [[] for _ in range(self.n_events)]
-        for lat, station, aid, centre in self.log:
-            out[lat // 1000000 - 1].append((station, aid, centre == lat))
+        self.stray = []
+        for ev, pos, station, aid, centre in self.log:
+            if ev is None or not (0 <= ev < self.n_events):
+                self.stray.append((pos, aid))
+            else:
+                out[ev].append((station, aid, pos, centre))
         return out
 
     def outcome(self):
@@ -1083,23 +1132,33 @@ class AllocRun:
         return (tuple(sorted(m[0][1][1] for m in pe if m)), self.final, self.s.abort_reason, tuple(self.excs))
 
     def judge(self):
-        """property text: stable identity within an event, different events of one station -> different action ids"""
+        """property text, every DENM judged against the event of the thread that handed it over: the event's count, one
+        action id for all its DENMs, the originating station, DENM event position and circle centre = the position the
+        event was requested with; different events of one station -> different action ids"""
         bad = []
         if self.s.abort_reason:
             bad.append(f"run aborted: {self.s.abort_reason} {self.s.deadlock or ''}")
         for name, exc in self.excs:
             bad.append(f"thread {name} raised {exc}")
         pe = self.per_event()
+        if self.stray:
+            bad.append(f"DENM handed over outside any event's thread: {self.stray[:2]}")
         ids = {}
         for j, (msgs, n) in enumerate(zip(pe, self.want())):
+            here = (_alloc_lat(j), _alloc_lon(j))
             if len(msgs) != n:
                 bad.append(f"event {j}: {len(msgs)} DENMs handed over, {n} expected")
             if any(m[1] != msgs[0][1] for m in msgs):
                 bad.append(f"event {j}: action id changes within the event {sorted({m[1] for m in msgs})}")
-            if any(m[0] != self.sc["station"] or m[1][0] != self.sc["station"] or not m[2] for m in msgs):
-                bad.append(f"event {j}: station identity / circle centre wrong")
-            if msgs:
-                ids.setdefault(msgs[0][1], []).append(j)
+            if any(m[0] != self.sc["station"] or m[1][0] != self.sc["station"] for m in msgs):
+                bad.append(f"event {j}: station identity differs from the originating station")
+            for m in msgs:
+                if m[2] != here or m[3] != here:
+                    bad.append(f"event {j}: DENM of this event carries event position {list(m[2])} and is geo-broadcast to a "
+                               f"circle centred on {list(m[3])}, the event position is {list(here)}")
+                    break
+            for aid in sorted({m[1] for m in msgs}):
+                ids.setdefault(aid, []).append(j)
         for aid, js in sorted(ids.items()):
             if len(js) > 1:
                 bad.append(f"events {js} originated concurrently by one station share action id {list(aid)}")
@@ -1112,6 +1171,10 @@ ALLOC_SCENARIOS = [
     {"name": "repeated_vs_crw", "threads": [[["rep", 2]], [["crw"]]]},
     {"name": "one_app_two_requests_vs_crw", "threads": [[["req", 1], ["req", 1]], [["crw"]]]},
     {"name": "three_apps", "threads": [[["rep", 1]], [["crw"]], [["req", 1]]]},
+    # round 4: OVERLAPPING events - pre-emption inside the repetition body (build/fill -> encode -> GBC request) as well
+    {"name": "overlap_two_requests", "body": True, "threads": [[["req", 2]], [["req", 2]]]},
+    {"name": "overlap_request_vs_crw", "body": True, "threads": [[["req", 2]], [["crw"]]]},
+    {"name": "overlap_three_kinds", "body": True, "threads": [[["rep", 1]], [["req", 2]], [["crw"]]]},
 ]
 
 
@@ -1124,7 +1187,7 @@ def alloc_scenarios(ctx):
     return out
 
 
-def explore_alloc(ctx, sc, bound, cap, n_pct, observed):
+def explore_alloc(ctx, sc, bound, cap, n_pct, observed, order="any"):
     """systematic enumeration up to `bound` pre-emptions (capped), then PCT; every run is judged"""
     state = {"est": 100, "found": 0}
 
@@ -1141,10 +1204,14 @@ def explore_alloc(ctx, sc, bound, cap, n_pct, observed):
                 again = AllocRun(sc, dsched.Replay(run.choices))
                 if again.outcome() != out:
                     ctx.note(f"{sc['name']}: schedule replay diverged ({again.outcome()} vs {out})")
-            ctx.violation(f"concurrent origination ({sc['name']}): {bad[0]}",
+            ctx.violation(f"{'overlapping events' if sc.get('body') else 'concurrent origination'} ({sc['name']}): {bad[0]}",
                           {"kind": "alloc", "scenario": sc, "schedule": run.choices, "violations": bad[:5]})
         else:
             observed.setdefault((sc["name"], sc["seq0"], run.n_events, out[:2]), run.choices)
+            if sc.get("body"):
+                pe = run.per_event()
+                observed.setdefault(("rep", sc["name"], sc["station"], tuple(m[0][1][1] if m else -1 for m in pe),
+                                     tuple(run.want())), [[(m[1][0], m[1][1]) + m[2] + m[3] for m in msgs] for msgs in pe])
         return run
 
     def once(prefix):
@@ -1152,8 +1219,10 @@ def explore_alloc(ctx, sc, bound, cap, n_pct, observed):
         state["est"] = max(state["est"], run.s.nsteps)
         return run.steps
 
-    runs, exhausted = dsched.enumerate_schedules(once, bound, cap, ctx.rng)
+    runs, exhausted = dsched.enumerate_schedules(once, bound, cap, ctx.rng, order=order)
     ctx.cover("conc_systematic_runs", runs)
+    if sc.get("body"):
+        ctx.cover("conc_body_preemption_runs", runs)
     if exhausted:
         ctx.cover("conc_systematic_exhausted_bound_%d" % bound)
     for k in range(n_pct):
@@ -1168,7 +1237,8 @@ def check_alloc_model(ctx, observed):
     the counter ends at seq0+n"""
     if not ctx.model_ok or not observed:
         return
-    keys = sorted(observed)
+    check_rep_model(ctx, {k: v for k, v in observed.items() if k[0] == "rep"})
+    keys = sorted(k for k in observed if k[0] != "rep")
     out = ctx.model("Denm", [f"allocs {seq0} {n}" for (_, seq0, n, _) in keys])
     for key, line in zip(keys, out):
         name, seq0, n, (seqs, final) = key
@@ -1178,11 +1248,49 @@ def check_alloc_model(ctx, observed):
                          [final, list(seqs)], line)
 
 
+def check_rep_model(ctx, observed):
+    """overlapping events: what every violation-free run of a `body` scenario handed over, per event, must be what the
+    Lean model of the repetition body (FlexModel/Fac/DenmRep.lean, scope as the regenerated facts say) hands over per
+    thread - under a schedule drawn here at random (theorem overlapping_events_own_identity: under EVERY schedule)"""
+    keys = sorted(observed)
+    if not keys:
+        return
+    lines = []
+    for (_, name, station, seqs, reps) in keys:
+        n = len(reps)
+        sched = [ctx.rng.randrange(n) for _ in range(ctx.rng.randrange(0, 6 * sum(reps) + 1))]
+        sched += [t for _ in range(6 * max(reps)) for t in range(n)]
+        evs = " ".join(f"{seqs[j] if seqs[j] >= 0 else 0} {_alloc_lat(j)} {_alloc_lon(j)} {reps[j]}" for j in range(n))
+        lines.append(f"reps src {station} {','.join(map(str, sched))} {evs}")
+    out = ctx.model("Denm", lines)
+    for key, line in zip(keys, out):
+        toks = line.split()
+        per = [[] for _ in key[4]]
+        for tok in toks[2:]:
+            f = [int(x) for x in tok.split(":")]
+            if 0 <= f[0] < len(per):
+                per[f[0]].append(tuple(f[1:]))
+        real = [[tuple(m) for m in msgs] for msgs in observed[key]]
+        ctx.evals()
+        ctx.cover("conc_body_model_compared")
+        if toks[0] != "fin" or per != real:
+            ctx.mismatch("denm.overlap", {"kind": "alloc", "scenario": key[1], "station": key[2], "seqs": list(key[3])},
+                         real, line[:400])
+
+
 def check_alloc(ctx, search=False):
     observed = {}
     scs = alloc_scenarios(ctx)
     for sc in scs:
         big = len(sc["threads"]) > 2 or sum(len(t) for t in sc["threads"]) > 2
+        if sc.get("body"):
+            # every schedule with ONE pre-emption anywhere in the repetition bodies (fewest pre-emptions first, capped in
+            # the quick tier), then two; PCT on top
+            if search:
+                explore_alloc(ctx, sc, 2, ctx.scale(900, 6000), ctx.scale(40, 400), observed, order="bfs")
+            else:
+                explore_alloc(ctx, sc, 1 if not ctx.thorough else 2, ctx.scale(120, 6000), ctx.scale(6, 200), observed, order="bfs")
+            continue
         if search:
             explore_alloc(ctx, sc, 2, ctx.scale(600, 3000), ctx.scale(60, 400), observed)
         else:
